@@ -79,6 +79,51 @@ def shared_name_permutations(v):
     return n
 
 
+def conflict_permutations(v):
+    """a failure is an outcome too: two mutually exclusive branches typed inside a subcommand that is not the first item of
+    the line; moving an unrelated switch of that level around them (their own order kept) must not change the message"""
+    hbin = build_harness()
+    defs = []
+    for i, wrap in enumerate(["one", "opt"]):
+        g = D.altf("g0", wrap, D.branch(D.rf("b0", "one", "--fast")), D.branch(D.rf("b1", "one", "--slow")), D.branch(D.ar("b2", "one", "int", "--level")))
+        sub = D.mkdef(f"csub{i}", D.level([D.sw("o1", "-v"), g, D.sw("o2", "-w")], D.NOTAIL), maxlen=1)
+        root = D.level([D.sw("r1", "-q"), D.ar("r2", "opt", "str", "--cfg")], D.cmdtail([D.cmd("run", sub)]))
+        defs.append(D.mkdef(f"conf{i}", root, maxlen=1))
+    dpath = os.path.join(WORK, f"C03-{v.tier}-conf-defs.ndjson")
+    D.write_ndjson(dpath, defs)
+    cpath = os.path.join(WORK, f"C03-{v.tier}-conf-cases.ndjson")
+    n = 0
+    with open(cpath, "w") as w:
+        for d in defs:
+            for prefix in ([], ["-q"], ["--cfg=1"], ["-q", "--cfg", "1"]):
+                for pair in (["--fast", "--slow"], ["--slow", "--fast"], ["--fast", "--level=1"], ["--level=2", "--slow"]):
+                    for extra in (["-v"], ["-v", "-w"]):
+                        items = [[x] for x in pair] + [[x] for x in extra]
+                        seen = set()
+                        for p in itertools.permutations(range(len(items))):
+                            if p.index(0) > p.index(1):
+                                continue        # the two branches keep their relative order: they feed the same field
+                            argv = prefix + ["run"] + [x for k in p for x in items[k]]
+                            if tuple(argv) in seen:
+                                continue
+                            seen.add(tuple(argv))
+                            w.write(json.dumps({"def": d["id"], "argv": argv, "grp": f"{d['id']}|{prefix}|{pair}|{extra}"}) + "\n")
+                            n += 1
+    dump = os.path.join(WORK, f"C03-{v.tier}-conf-obs.ndjson")
+    run_replay(hbin, dpath, cpath, os.path.join(WORK, f"C03-{v.tier}-conf-mm.ndjson"), dump=dump)
+    base = {}
+    for r in read_ndjson(dump):
+        g = {k: r["got"].get(k) for k in ("class", "value", "kind", "text")}
+        if r["grp"] not in base:
+            base[r["grp"]] = (g, r)
+        elif g != base[r["grp"]][0]:
+            b, br = base[r["grp"]]
+            v.report({"rule": "permutation_changes_outcome", "orig": b["class"], "perm": g["class"], "family": "conflict_in_subcommand",
+                      "text_differs": g.get("text") != b.get("text")},
+                     {"def": r["def"], "argv_bytes": r["argv_bytes"], "orig_argv": br["argv_bytes"], "expect": br["got"], "got": r["got"]})
+    return n
+
+
 def run(v):
     big = D.conv_family(SEED + 1030, 30, max_named=6, maxlen=3, budget=10**9) + \
         D.pos_family(SEED + 1031, 15, budget=10**9) + D.cmd_family(SEED + 1032, 15, depth=3, budget=10**9)
@@ -91,6 +136,7 @@ def run(v):
                                 signature=cmdline_sig.signature, trace_module="GroupLineTrace", name="C03g")
     cov = merge_cov(cov, gcov, "groupline")
     cov["shared_name_permutations"] = shared_name_permutations(v)
+    cov["conflict_permutations"] = conflict_permutations(v)
     cov["permuted_pairs_compared_on_impl"] = v.info.get("permuted_pairs", 0)
     cov["rule"] = ("SwapCommutes is checked by TLC in every reachable state (every exchange of two neighbouring occurrences "
                    "feeding different fields); all lines, hence all permutations up to maxlen, are replayed; the driver "
